@@ -17,19 +17,19 @@ abbrev FpFun := Mode → Fp
 
 structure IsLock (n : Nat) (L : RawLockM) (fp : FpFun) : Prop where
   acq : ∀ (m : Mode) (g : HG) (Q : Unit → HG → Prop) (E : Unit → HG → Prop),
-    g.noBlock = false →
+    g.depth = 0 →
     Q () { g with held := g.held.plus (fp m) } →
-    (∀ g' : HG, g'.held = g.held → g'.noBlock = g.noBlock → g.panics < g'.panics → E () g') →
+    (∀ g' : HG, g'.held = g.held → g'.depth = g.depth → g.panics < g'.panics → E () g') →
     wp (HoldSpec n) (L.acq m) Q E g
   try_ : ∀ (m : Mode) (g : HG) (Q : Bool → HG → Prop) (E : Unit → HG → Prop),
     Q true { g with held := g.held.plus (fp m) } →
     Q false g →
-    (∀ g' : HG, g'.held = g.held → g'.noBlock = g.noBlock → g.panics < g'.panics → E () g') →
+    (∀ g' : HG, g'.held = g.held → g'.depth = g.depth → g.panics < g'.panics → E () g') →
     wp (HoldSpec n) (L.try_ m) Q E g
   rel : ∀ (m : Mode) (g : HG) (Q : Unit → HG → Prop) (E : Unit → HG → Prop),
     g.held.Covers (fp m) →
     Q () { g with held := g.held.minus (fp m) } →
-    (∀ g' : HG, g'.held = g.held.minus (fp m) → g'.noBlock = g.noBlock → g.panics < g'.panics →
+    (∀ g' : HG, g'.held = g.held.minus (fp m) → g'.depth = g.depth → g.panics < g'.panics →
       E () g') →
     wp (HoldSpec n) (L.rel m) Q E g
 
@@ -81,7 +81,7 @@ theorem unlockAllFrom_spec (ms : Members) (hm : ms.Ok n) (m : Mode) (pend : Bool
     (Q : Unit → HG → Prop) (E : Unit → HG → Prop)
     (hc : g.held.Covers (ms.fp m))
     (hQ : pend = false → Q () { g with held := g.held.minus (ms.fp m) })
-    (hE : ∀ g' : HG, g'.held = g.held.minus (ms.fp m) → g'.noBlock = g.noBlock →
+    (hE : ∀ g' : HG, g'.held = g.held.minus (ms.fp m) → g'.depth = g.depth →
       ((pend = true ∧ g.panics ≤ g'.panics) ∨ g.panics < g'.panics) → E () g') :
     wp (HoldSpec n) (unlockAllFrom m ms.locks pend) Q E g := by
   induction ms generalizing g pend with
@@ -118,7 +118,7 @@ theorem unlockAll_spec (ms : Members) (hm : ms.Ok n) (m : Mode) (g : HG)
     (Q : Unit → HG → Prop) (E : Unit → HG → Prop)
     (hc : g.held.Covers (ms.fp m))
     (hQ : Q () { g with held := g.held.minus (ms.fp m) })
-    (hE : ∀ g' : HG, g'.held = g.held.minus (ms.fp m) → g'.noBlock = g.noBlock →
+    (hE : ∀ g' : HG, g'.held = g.held.minus (ms.fp m) → g'.depth = g.depth →
       g.panics < g'.panics → E () g') :
     wp (HoldSpec n) (unlockAll m ms.locks) Q E g := by
   apply unlockAllFrom_spec ms hm m false g Q E hc (fun _ => hQ)
@@ -131,10 +131,10 @@ theorem unlockAll_spec (ms : Members) (hm : ms.Ok n) (m : Mode) (g : HG)
 
 theorem orderedAcqBody_spec (ms : Members) (hm : ms.Ok n) (m : Mode) (locked : Nat) (g : HG)
     (Q : Unit → HG → Prop) (E : Nat → HG → Prop)
-    (hb : g.noBlock = false)
+    (hb : g.depth = 0)
     (hQ : Q () { g with held := g.held.plus (ms.fp m) })
     (hE : ∀ (j : Nat) (g' : HG), j ≤ ms.length →
-      g'.held = g.held.plus (Members.fp (ms.take j) m) → g'.noBlock = g.noBlock →
+      g'.held = g.held.plus (Members.fp (ms.take j) m) → g'.depth = g.depth →
       g.panics < g'.panics → E (locked + j) g') :
     wp (HoldSpec n) (orderedAcqBody m ms.locks locked) Q E g := by
   induction ms generalizing g locked with
@@ -156,7 +156,7 @@ theorem orderedAcqBody_spec (ms : Members) (hm : ms.Ok n) (m : Mode) (locked : N
 theorem recover_prefix (ms : Members) (hm : ms.Ok n) (m : Mode) (c : Nat) (h₀ : Held) (g' : HG)
     (E : Unit → HG → Prop) (p₀ : Nat)
     (h1 : g'.held = h₀.plus (Members.fp (ms.take c) m)) (h3 : p₀ < g'.panics)
-    (hE : ∀ g'' : HG, g''.held = h₀ → g''.noBlock = g'.noBlock → p₀ < g''.panics → E () g'') :
+    (hE : ∀ g'' : HG, g''.held = h₀ → g''.depth = g'.depth → p₀ < g''.panics → E () g'') :
     wp (HoldSpec n) (recover m (List.take c ms.locks)) (fun _ g'' => E () g'') (fun _ g'' => E () g'') g' := by
   simp only [recover]
   rw [← Members.locks_take]
@@ -171,9 +171,9 @@ theorem recover_prefix (ms : Members) (hm : ms.Ok n) (m : Mode) (c : Nat) (h₀ 
 
 theorem isLock_ordered_acq (ms : Members) (hm : ms.Ok n) (m : Mode) (g : HG)
     (Q : Unit → HG → Prop) (E : Unit → HG → Prop)
-    (hb : g.noBlock = false)
+    (hb : g.depth = 0)
     (hQ : Q () { g with held := g.held.plus (ms.fp m) })
-    (hE : ∀ g' : HG, g'.held = g.held → g'.noBlock = g.noBlock → g.panics < g'.panics → E () g') :
+    (hE : ∀ g' : HG, g'.held = g.held → g'.depth = g.depth → g.panics < g'.panics → E () g') :
     wp (HoldSpec n) (orderedAcq m ms.locks) Q E g := by
   unfold orderedAcq
   rw [wp_handle]
@@ -192,7 +192,7 @@ theorem orderedTryBody_spec (ms₁ ms₂ : Members) (hm : Members.Ok n (ms₁ ++
     (hQt : Q true { g with held := h₀.plus (Members.fp (ms₁ ++ ms₂) m) })
     (hQf : Q false { g with held := h₀ })
     (hE : ∀ (c : Nat) (g' : HG), c ≤ (ms₁ ++ ms₂).length →
-      g'.held = h₀.plus (Members.fp ((ms₁ ++ ms₂).take c) m) → g'.noBlock = g.noBlock →
+      g'.held = h₀.plus (Members.fp ((ms₁ ++ ms₂).take c) m) → g'.depth = g.depth →
       g.panics < g'.panics → E c g') :
     wp (HoldSpec n)
       (orderedTryBody m (Members.locks (ms₁ ++ ms₂)) ms₂.locks ms₁.length ms₁.length) Q E g := by
@@ -245,7 +245,7 @@ theorem isLock_ordered_try (ms : Members) (hm : ms.Ok n) (m : Mode) (g : HG)
     (Q : Bool → HG → Prop) (E : Unit → HG → Prop)
     (hQt : Q true { g with held := g.held.plus (ms.fp m) })
     (hQf : Q false g)
-    (hE : ∀ g' : HG, g'.held = g.held → g'.noBlock = g.noBlock → g.panics < g'.panics → E () g') :
+    (hE : ∀ g' : HG, g'.held = g.held → g'.depth = g.depth → g.panics < g'.panics → E () g') :
     wp (HoldSpec n) (orderedTry m ms.locks) Q E g := by
   unfold orderedTry
   rw [wp_handle]
@@ -281,7 +281,7 @@ theorem isLock_retry_try (ms : Members) (hm : ms.Ok n) (m : Mode) (g : HG)
     (Q : Bool → HG → Prop) (E : Unit → HG → Prop)
     (hQt : Q true { g with held := g.held.plus (ms.fp m) })
     (hQf : Q false g)
-    (hE : ∀ g' : HG, g'.held = g.held → g'.noBlock = g.noBlock → g.panics < g'.panics → E () g') :
+    (hE : ∀ g' : HG, g'.held = g.held → g'.depth = g.depth → g.panics < g'.panics → E () g') :
     wp (HoldSpec n) (retryTry m ms.locks) Q E g := by
   unfold retryTry
   split
@@ -314,7 +314,7 @@ theorem retryCatch_eq (m : Mode) (ms : Members) (c : RetryCells) :
     retryCatch m ms.locks c = recover m (Members.locks (retryHeld ms c)) := by
   unfold retryCatch retryHeld
   by_cases h : (c.firstLocked && decide (c.firstIndex ≥ c.locked)) = true
-  · simp [h, Members.locks, Members.locks_getD, List.map_take, List.getD_eq_getElem?_getD,
+  · simp [h, Members.locks, List.map_take, List.getD_eq_getElem?_getD,
       List.getElem?_map]
     cases ms[c.firstIndex]? <;> rfl
   · simp [h, Members.locks, List.map_take]
@@ -324,7 +324,7 @@ theorem retryCatch_spec (ms : Members) (hm : ms.Ok n) (m : Mode) (c : RetryCells
     (g' : HG) (E : Unit → HG → Prop) (p₀ : Nat)
     (hfi : c.firstIndex < ms.length)
     (h1 : g'.held = h₀.plus (Members.fp (retryHeld ms c) m)) (h3 : p₀ < g'.panics)
-    (hE : ∀ g'' : HG, g''.held = h₀ → g''.noBlock = g'.noBlock → p₀ < g''.panics → E () g'') :
+    (hE : ∀ g'' : HG, g''.held = h₀ → g''.depth = g'.depth → p₀ < g''.panics → E () g'') :
     wp (HoldSpec n) (retryCatch m ms.locks c) (fun _ g'' => E () g'') (fun _ g'' => E () g'') g' := by
   rw [retryCatch_eq]
   simp only [recover]
@@ -374,7 +374,7 @@ theorem retryInner_spec (pre suf : Members) (hm : Members.Ok n (pre ++ suf)) (m 
     (hQn : Q none { g with held := h₀.plus (Members.fp (pre ++ suf) m) })
     (hQs : ∀ i, i < (pre ++ suf).length → Q (some i) { g with held := h₀ })
     (hE : ∀ (c' : RetryCells) (g' : HG), c'.firstIndex < (pre ++ suf).length →
-       g'.held = h₀.plus (Members.fp (retryHeld (pre ++ suf) c') m) → g'.noBlock = g.noBlock →
+       g'.held = h₀.plus (Members.fp (retryHeld (pre ++ suf) c') m) → g'.depth = g.depth →
        g.panics < g'.panics → E c' g') :
     wp (HoldSpec n) (retryInner m (Members.locks (pre ++ suf)) suf.locks pre.length c) Q E g := by
   induction suf generalizing pre c g with
@@ -482,12 +482,12 @@ theorem retryInner_spec (pre suf : Members) (hm : Members.Ok n (pre ++ suf)) (m 
 
 theorem retryOuter_spec (all : Members) (hm : all.Ok n) (m : Mode) (h₀ : Held) (fuel : Nat)
     (c : RetryCells) (g : HG) (Q : Unit → HG → Prop) (E : RetryCells → HG → Prop)
-    (hb : g.noBlock = false)
+    (hb : g.depth = 0)
     (hfi : c.firstIndex < all.length) (hfl : c.firstLocked = false) (hlk : c.locked = 0)
     (hg : g.held = h₀)
     (hQ : Q () { g with held := h₀.plus (all.fp m) })
     (hE : ∀ (c' : RetryCells) (g' : HG), c'.firstIndex < all.length →
-       g'.held = h₀.plus (Members.fp (retryHeld all c') m) → g'.noBlock = g.noBlock →
+       g'.held = h₀.plus (Members.fp (retryHeld all c') m) → g'.depth = g.depth →
        g.panics < g'.panics → E c' g') :
     wp (HoldSpec n) (retryOuter m all.locks fuel c) Q E g := by
   induction fuel generalizing c g with
@@ -529,9 +529,9 @@ theorem retryOuter_spec (all : Members) (hm : all.Ok n) (m : Mode) (h₀ : Held)
 
 theorem isLock_retry_acq (fuel : Nat) (ms : Members) (hm : ms.Ok n) (m : Mode) (g : HG)
     (Q : Unit → HG → Prop) (E : Unit → HG → Prop)
-    (hb : g.noBlock = false)
+    (hb : g.depth = 0)
     (hQ : Q () { g with held := g.held.plus (ms.fp m) })
-    (hE : ∀ g' : HG, g'.held = g.held → g'.noBlock = g.noBlock → g.panics < g'.panics → E () g') :
+    (hE : ∀ g' : HG, g'.held = g.held → g'.depth = g.depth → g.panics < g'.panics → E () g') :
     wp (HoldSpec n) (retryAcq m fuel ms.locks) Q E g := by
   unfold retryAcq
   split
